@@ -2,6 +2,8 @@
 
 use crate::campaign::{campaign, seed32, Engine, InFlight, Known, Tier, WorkerReport};
 use crate::engine::Failure;
+use crate::props::asan::AsanEngine;
+use crate::props::cycles::CyclesEngine;
 use crate::props::digraph::DiEngine;
 use crate::props::gc::GcEngine;
 use crate::props::multi::MultiEngine;
@@ -27,7 +29,7 @@ pub struct Meta {
     pub subs: Vec<Sub>,
 }
 
-pub const PROPS: &[&str] = &["C01", "C02", "C03", "C04", "C05", "C08", "C09", "C10", "C11", "C12", "C13", "C14", "C15", "C16", "C17", "C18", "C19", "C20"];
+pub const PROPS: &[&str] = &["C01", "C02", "C03", "C04", "C05", "C06", "C07", "C08", "C09", "C10", "C11", "C12", "C13", "C14", "C15", "C16", "C17", "C18", "C19", "C20"];
 
 pub fn leak(s: &str) -> &'static str {
     Box::leak(s.to_string().into_boxed_str())
@@ -70,6 +72,18 @@ pub fn meta(prop: &str) -> Option<Meta> {
             rule: "generator profile allocator-heavy (next_id with/without add, adds ahead of/behind the allocator, collections, clone, merge, script variables); oracle = every returned id is below the capacity, absent at that moment and never returned before in this lineage; ids created by merge/script were never returned before. next_id is only generated while an absent id at or above the allocator position remains. Non-trivial: >=2 next_id calls plus a collection, clone, merge or explicit add.",
             assumptions: gc_assume,
             subs: vec![Sub { id: "gcmodel", quick: 8_000, thorough: 1_600_000 }],
+        },
+        "C06" => Meta {
+            level: "exploration",
+            rule: "per history: k in 0..=13 long-lived groups (each holding an unread datum) are created first; then T create-fill-read cycles (quick 40..300, thorough 40..3000) run over a rotating window of ids so that ids and group slots are recycled; each cycle builds one group of 2..6 vertices with binds, puts, overwriting puts, harmless mid-cycle reads and re-puts in a generated interleaving (puts before and after binding), then reads everything (some twice); up to min(14-k, capacity/6) cycles overlap in time under a generated schedule; drain epilogue with simultaneous probing of every free group slot at the end. Oracle: keys() equals the reference model's alive set after every call and no call panics (so every cycle's vertices are gone when the model says so, and a new group can be formed whenever fewer than 14 are alive). Non-trivial (from the statement): >=15 groups were collected in one history (the 14 usable slots have wrapped). The occupied-slot count from the hook is compared with the model only as a recorded diagnostic.",
+            assumptions: &["reference model (harness/src/model.rs)", "N in 1..=16, capacity 8..256", "build with debug assertions and overflow checks"],
+            subs: vec![Sub { id: "cycles", quick: 320, thorough: 9_600 }],
+        },
+        "C07" => Meta {
+            level: "exploration",
+            rule: "every call runs in a worker built with AddressSanitizer (quick; thorough adds MemorySanitizer and a libFuzzer+ASan campaign) and debug assertions; a sanitizer report aborts the worker and is reported with the in-flight case. Two generators over N in {1,2,4,16}, capacity 1..40: (1) an in-domain generated history (profiles limit-edge, gc-orders, forest, queries; no call may panic), extended in-domain until a limit is reached exactly, then ONE call that exceeds exactly one limit — id at or above the capacity in add/bind/put/data/kid/kids/slice/inspect/v_print/merge, an (N+1)-th label, a 17th group member — which must panic; (2) anything goes: up to 120 raw calls with ids up to capacity+2, equal/absent bind endpoints, 15th group, clone, slice, slice_some, merge of non-trees (the graph with itself, cyclic right graphs), save+load, exports, inspect, scripts, every call under catch_unwind and the same graph used on after a panic; no expectation but the sanitizer's silence. Non-trivial: (1) an overrun call was executed after reaching its limit exactly; (2) at least one call panicked and the sequence went on.",
+            assumptions: &["claimed for builds with debug assertions (the crate's own bounds checks)", "AddressSanitizer does not report uninitialised reads: the thorough tier adds a MemorySanitizer run", "leak detection is off (emap never drops its elements by design)"],
+            subs: vec![Sub { id: "asan-seq", quick: 8_000, thorough: 64_000 }, Sub { id: "msan-seq", quick: 0, thorough: 32_000 }],
         },
         "C08" => Meta {
             level: "exploration",
@@ -171,6 +185,8 @@ pub fn run_sub(
             let e = GcEngine::for_prop(leak(prop));
             campaign(&e, tier, seed, cases, known, inflight, max_shrink)
         }
+        ("C07", "asan-seq" | "msan-seq") => campaign(&AsanEngine, tier, seed, cases, known, inflight, 400),
+        ("C06", "cycles") => campaign(&CyclesEngine { max_cycles: if tier == Tier::Quick { 300 } else { 3000 } }, tier, seed, cases, known, inflight, 300),
         ("C08", "twin") => campaign(&TwinEngine { kind: TwinKind::SaveLoad }, tier, seed, cases, known, inflight, max_shrink),
         ("C09", "prefixes") => campaign(&PrefixEngine { all_prefixes: tier == Tier::Thorough }, tier, seed, cases, known, inflight, 100),
         ("C10", "twin") => campaign(&TwinEngine { kind: TwinKind::Clone }, tier, seed, cases, known, inflight, max_shrink),
@@ -199,6 +215,8 @@ pub fn run_sub(
 pub fn replay(prop: &str, engine: &str, payload: &Value) -> Result<Option<Failure>, String> {
     match (prop, engine) {
         ("C01" | "C02" | "C03" | "C04" | "C05", "gcmodel") => Ok(GcEngine::for_prop(leak(prop)).replay(payload)),
+        ("C07", "asan-seq" | "msan-seq") => Ok(AsanEngine.replay(payload)),
+        ("C06", "cycles") => Ok(CyclesEngine { max_cycles: 3000 }.replay(payload)),
         ("C08", "twin") => Ok(TwinEngine { kind: TwinKind::SaveLoad }.replay(payload)),
         ("C09", "prefixes") => Ok(PrefixEngine { all_prefixes: true }.replay(payload)),
         ("C10", "twin") => Ok(TwinEngine { kind: TwinKind::Clone }.replay(payload)),
@@ -222,6 +240,8 @@ pub fn run_case(prop: &str, engine: &str, case: &Value) -> Result<Option<Failure
             let c = serde_json::from_value(case.clone()).map_err(|e| e.to_string())?;
             Ok(e.run(&c).failure)
         }
+        ("C07", "asan-seq" | "msan-seq") => Ok(AsanEngine.run(&serde_json::from_value(case.clone()).map_err(|e| e.to_string())?).failure),
+        ("C06", "cycles") => Ok(CyclesEngine { max_cycles: 3000 }.run(&serde_json::from_value(case.clone()).map_err(|e| e.to_string())?).failure),
         ("C08", "twin") => Ok(TwinEngine { kind: TwinKind::SaveLoad }.run(&serde_json::from_value(case.clone()).map_err(|e| e.to_string())?).failure),
         ("C09", "prefixes") => Ok(PrefixEngine { all_prefixes: true }.run(&serde_json::from_value(case.clone()).map_err(|e| e.to_string())?).failure),
         ("C10", "twin") => Ok(TwinEngine { kind: TwinKind::Clone }.run(&serde_json::from_value(case.clone()).map_err(|e| e.to_string())?).failure),
